@@ -219,7 +219,7 @@ type node struct {
 
 func main() {
 	vf.Main("C09", "exploration", func(c *vf.Ctx) {
-		c.Rule = "direct ratio-sampler calls on generated (trace id, r, r') with ids whose low 8 bytes are 0x00.., 0x7f.., 0x80.., 0xff.. and r in {-1,0,2^-63,1e-9,..,1-2^-53,1,2,Inf} or uniform; binomial share test on uniform ids; span trees (depth<=6, fan-out<=5) under sampler compositions (always/never/ratio/ParentBased with default or tagged scripted delegates/scripted sampler returning every decision with attributes and replaced tracestate) x parent classes {absent, remote, local} x flags {0,1,2,3,0x81,0xfe,0xff} x tracestate, WithNewRoot, with recording processor + simple + batch (blocking and not) processors in front of recording exporters; concurrent id generation across two providers; custom IDGenerator; the same trees under five OTEL_TRACES_SAMPLER values; snapshot Parent() vs start context; an eighth of the trees with a held, always-failing third batch exporter drained at Shutdown. distinct = distinct (family, sampler composition, parent class, flags, decision, tree shape class) signatures"
+		c.Rule = "direct ratio-sampler calls on generated (trace id, r, r') with ids whose low 8 bytes are 0x00.., 0x7f.., 0x80.., 0xff.. and r in {-1,0,2^-63,1e-9,..,1-2^-53,1,2,Inf} or uniform; binomial share test on uniform ids; span trees (depth<=6, fan-out<=5) under sampler compositions (always/never/ratio/ParentBased with default or tagged scripted delegates/scripted sampler returning every decision with attributes and replaced tracestate) x parent classes {absent, remote, local} x flags {0,1,2,3,0x81,0xfe,0xff} x tracestate, WithNewRoot, with recording processor + simple + batch (blocking and not) processors in front of recording exporters; concurrent id generation across two providers; custom IDGenerator; the same trees under five OTEL_TRACES_SAMPLER values; snapshot Parent() vs start context; an eighth of the trees with a held, always-failing third batch exporter drained at Shutdown; list-edit family (processor list edited while End is parked in a gate processor); batch processor in front of a slow exporter that re-reads its batch, under concurrent ForceFlush. distinct = distinct (family, sampler composition, parent class, flags, decision, tree shape class) signatures"
 		c.Assume = []string{"'the sampled share tracks r' is a 6-sigma binomial band on uniformly random trace ids", "NaN ratios are exercised for no-panic only"}
 
 		// ---------------- ratio sampler, direct ----------------
